@@ -224,6 +224,18 @@ pub fn run(args: &Args, report: &mut Report) {
         if g.program.stmts.iter().any(|s| matches!(s, Stmt::Op { op: UOp::Replicate(Rep::Limited(_)), .. })) {
             layouts.push(crng.pick(&[Layout::Remote(vec![2, 1, 1]), Layout::Remote(vec![2, 2, 2, 2]), Layout::Remote(vec![3, 1, 2])]).clone());
         }
+        // debugging aid: VERIF_REPEAT_CASE=<case>:<n> runs only that case, n times per layout,
+        // under fresh random delay policies
+        let repeat: Option<(usize, usize)> = std::env::var("VERIF_REPEAT_CASE").ok().and_then(|v| {
+            let mut it = v.split(':');
+            Some((it.next()?.parse().ok()?, it.next()?.parse().ok()?))
+        });
+        if let Some((c, n)) = repeat {
+            if c != case {
+                continue;
+            }
+            layouts = layouts.iter().flat_map(|l| std::iter::repeat(l.clone()).take(n)).collect();
+        }
         let phash = hash_str(&format!("{:?}", g.program.stmts)) ^ hash_str(&format!("{:?}", g.program.inputs.iter().map(|i| i.len()).collect::<Vec<_>>()));
         for (ci, layout) in layouts.iter().enumerate() {
             let mut batch = if ci == 0 { g.program.batch } else { random_batch(&mut crng) };
